@@ -8,7 +8,7 @@ import numpy as np
 
 RULE = ("exhaustive: every connection structure on every grid up to 2x3 and a seed-selected 1/16 slice (quick) / all (thorough) of the 4096 "
         "structures on 3x3, x every ordered pair of cells; random: cyclic/disconnected/tree mazes up to 12x12 (thorough 20x20), oblong included, "
-        "density 0.1-0.9, all pairs on small and sampled pairs on large grids; non-trivial = start != end; distinct = distinct (structure, pair); later additions: generator mazes with their metadata and integer-stored connection lists (all pairs, path validity judged), in-place edit sequences on one maze object (any exception counts as an answer), two-route and 4xN long mazes, SolvedMaze.from_targeted_lattice_maze on targeted mazes / solved mazes carrying longer legal walks / unconnected endpoints (also replayed through the model)")
+        "density 0.1-0.9, all pairs on small and sampled pairs on large grids; non-trivial = start != end; distinct = distinct (structure, pair); later additions: generator mazes with their metadata and integer-stored connection lists (all pairs, path validity judged), in-place edit sequences on one maze object (any exception counts as an answer), two-route and 4xN long mazes, SolvedMaze.from_targeted_lattice_maze on targeted mazes / solved mazes carrying longer legal walks / unconnected endpoints (also replayed through the model), int8 coordinate queries on big cyclic mazes, a 10-cell cycle placed across Manhattan distance 128 from the target (int8 / int64 / tuple queries), returned paths overwritten by the caller and asked again")
 ASSUMPTIONS = ["`min(open_vtx, key=...)` returns some f-minimal element of the open set (validated: every observed pick is checked legal by the model)",
                "maze is well formed (WF) — true of every LatticeMaze the generators build (C01)"]
 TRUSTED = ["module-global `min` shadow used to observe the expansion order (if the lookup stops being interceptable the check reports a broken correspondence)"]
